@@ -378,6 +378,9 @@ def main(tier, replay=None, rep=None, prop=PROP, cases=None):
         # the reduction step tactics 1 and 5 share once the rows are chosen (solve as equalities, substitute), spec/ContextReduction.tla
         n_cr, _ = drift_tier(PROP, "context-reduction", lambda: __import__("crdrv").conformance(rep, rd, PROP, tier))
         n_disp += n_cr
+        # tactic 1's row selection and its soundness together with the reduction step, spec/Kaykobad.tla
+        n_kk, _ = drift_tier(PROP, "tactic-1", lambda: __import__("kkdrv").conformance(rep, rd, PROP, tier))
+        n_disp += n_kk
     shutil.rmtree(rd, ignore_errors=True)
     if collect:
         return {"evaluations": n_ev, "nontrivial": nontrivial, "traces": len(traces), "verdict_counts": counts}
